@@ -756,10 +756,15 @@ pub(crate) fn add_model<P: ProtoModel>(
     scheduler: GlobalScheduler,
     executor: &Executor,
     abort_signal: &Signal,
+    observers: &mut Vec<(String, Box<dyn ChannelObserver>)>,
     model_names: &mut Vec<String>,
 ) {
     #[cfg(feature = "tracing")]
     let span = tracing::span!(target: env!("CARGO_PKG_NAME"), tracing::Level::INFO, "model", name);
+
+    // Every model, including sub-models added while building their parent,
+    // must be observable for deadlock reporting.
+    observers.push((name.clone(), Box::new(mailbox.0.observer())));
 
     let mut build_cx = BuildContext::new(
         &mailbox,
@@ -767,6 +772,7 @@ pub(crate) fn add_model<P: ProtoModel>(
         &scheduler,
         executor,
         abort_signal,
+        observers,
         model_names,
     );
     let model = model.build(&mut build_cx);
